@@ -88,6 +88,7 @@ type Case struct {
 	ShrinkBy  int64       `json:"shrink_by"` // bytes to cut off (0 = half the file)
 	Vanish    string      `json:"vanish"`   // rel path of a source file to delete after the scan
 	Obstruct  string      `json:"obstruct"` // rel path in the out dir to pre-create as a directory
+	ObstructFile string   `json:"obstruct_file"` // rel path in the out dir to pre-create as a regular file (where the tree has a directory)
 	CloseLike bool        `json:"close_like_app"` // each side closes its conn (code 0) when its function returns, as the app does
 	SrcDir    string      `json:"src_dir"`        // use this existing source tree (not created, not removed)
 	Tail      uint32      `json:"tail"`           // sender Options.ResumeVerifyTail
@@ -658,6 +659,11 @@ func runCase(c Case) (res Result) {
 	}
 	if c.Obstruct != "" {
 		os.MkdirAll(filepath.Join(outTree, filepath.FromSlash(c.Obstruct)), 0o755)
+	}
+	if c.ObstructFile != "" {
+		op := filepath.Join(outTree, filepath.FromSlash(c.ObstructFile))
+		os.MkdirAll(filepath.Dir(op), 0o755)
+		os.WriteFile(op, []byte("in the way"), 0o644)
 	}
 	if c.Shrink != "" {
 		p := filepath.Join(src, filepath.FromSlash(c.Shrink))
